@@ -115,12 +115,25 @@ def _native_enc(items, D):
     return D["field separator"].join(parts) + (";" if D["trailing semicolon"] else "")
 
 
-def _unit_roundtrip(styles):
+def _unit_roundtrip(styles, keys=None):
+    """keys: other attribute keys than the standard three (e.g. keys that differ only in letter case, not adjacent), on the
+    shape of three single-valued attributes and a sample of the dialects"""
     def unit(U):
+        saved = list(A.KEYS)
+        try:
+            if keys is not None:
+                A.KEYS[:] = list(keys)
+            _roundtrip_body(U, styles, keys)
+        finally:
+            A.KEYS[:] = saved
+
+    def _roundtrip_body(U, styles, keys):
         for dname, D in A.dialects():
             if dname.split("|")[0] not in styles:
                 continue
-            for shape in A.shapes(U.thorough):
+            if keys is not None and not (dname.endswith("|norep") and ("';'|notrail" in dname or "'; '|trail" in dname)):
+                continue
+            for shape in (A.shapes(U.thorough) if keys is None else [(1, 1, 1)]):
                 variants = [(0, "int")]
                 if shape in ((1, 1), (2, 1, 0)):
                     variants += [(2, "int"), (1, "dot")]
@@ -139,7 +152,7 @@ def _unit_roundtrip(styles):
                         out = it.call(F.Feature.__str__, [f], {})
                         ctx.stash.update(items=items, cols=cols, extra=extra, line=line)
                         return f, out
-                    base = "C07.roundtrip[%s,%s,extra=%d,%s]" % (dname, "x".join(map(str, shape)), nextra, coords)
+                    base = "C07.roundtrip[%s,%s,extra=%d,%s]" % (dname, "x".join(map(str, shape)), nextra, coords) + ("" if keys is None else "[keys=%s]" % "/".join(keys))
                     replay = lambda m, dname=dname, D=D, shape=shape, nextra=nextra, coords=coords: native_roundtrip(dname, D, shape, nextra, coords)
                     paths = U.explore(run, it)
                     for p in paths:
@@ -254,7 +267,8 @@ def unit_loose(U):
 
 
 UNITS = [("roundtrip.kv", _unit_roundtrip(("k=v",))), ("roundtrip.kqv", _unit_roundtrip(('k="v"',))), ("roundtrip.gtf", _unit_roundtrip(('k "v"',))),
-         ("roundtrip.gff2", _unit_roundtrip(("k v",))), ("empty_attrs", unit_empty_attrs), ("loose", unit_loose)]
+         ("roundtrip.gff2", _unit_roundtrip(("k v",))), ("empty_attrs", unit_empty_attrs), ("loose", unit_loose),
+         ("roundtrip.casekeys", _unit_roundtrip(("k=v", 'k "v"'), keys=("Note", "ID", "note"))), ("roundtrip.prefixkeys", _unit_roundtrip(("k=v",), keys=("gene", "ID", "gene_id")))]
 try:
     from standins import C07 as _S
     UNITS = UNITS + list(_S.UNITS)
